@@ -9,10 +9,13 @@ from ..synth import ShellModel
 from .. import runcommon as rc
 
 
-def _mk(N, zeta_list, seed):
+def _mk(N, zeta_list, seed, options=None):
     from mudslide.cumulative_sh import TrajectoryCum
     rho = np.zeros((N, N), dtype=np.complex128)
     rho[0, 0] = 1.0
+    if options is not None:
+        # the caller's own options dictionary (one dict, one list object) handed to several trajectories, as BatchedTraj does
+        return TrajectoryCum(ShellModel(N, [1.0]), [0.0], [0.0], rho, **options)
     return TrajectoryCum(ShellModel(N, [1.0]), [0.0], [0.0], rho, state0=0, dt=1.0,
                          zeta_list=list(zeta_list), seed_sequence=seed)
 
@@ -25,11 +28,11 @@ def _peek(traj):
     return float(g.random()), float(g.uniform())
 
 
-def drive(seq, zetas, seed):
+def drive(seq, zetas, seed, options=None):
     """run the implementation's hopper over a sequence of rate vectors.
     returns per step: (attempted, target, zeta_used, prob, prob_cum_after, zeta_after, u, newzeta)"""
     N = len(seq[0])
-    t = _mk(N, zetas, seed)
+    t = _mk(N, zetas, seed, options)
     z0 = float(t.zeta)
     out = []
     for g in seq:
@@ -53,8 +56,18 @@ def oracle_first_crossing(args):
     mp.mp.dps = 60
     seq = [list(map(float, g)) for g in args["seq"]]
     zetas = [float(z) for z in args["zetas"]]
-    z0, out = drive(seq, zetas, args["seed"])
     problems = []
+    if args.get("shared_options"):
+        # two trajectories are built from ONE options dictionary holding ONE threshold list; the first is driven to the end,
+        # then the second: each has to start from the head of the user's list, and the user's list is the user's
+        mine = list(zetas)
+        options = dict(state0=0, dt=1.0, zeta_list=mine, seed_sequence=args["seed"])
+        drive(seq, zetas, args["seed"], options)
+        z0, out = drive(seq, zetas, args["seed"], options)
+        if mine != zetas:
+            problems.append("the caller's own threshold list was changed: %r -> %r" % (zetas[:4], mine[:4]))
+    else:
+        z0, out = drive(seq, zetas, args["seed"])
     if zetas and z0 != zetas[0]:
         problems.append("first threshold %r is not the head of the user list %r" % (z0, zetas[0]))
     zi = 1
@@ -349,3 +362,9 @@ def run(ctx):
         ok, obs, req, text = oracle_first_crossing({"seq": seq, "zetas": zetas, "seed": seed})
         if not ok:
             ctx.oracle_fail("cumulative-hopper", "first_crossing", {"seq": seq, "zetas": zetas, "seed": seed}, obs, req, text)
+        if zetas and len(obs.get("steps", [])) and sum(1 for st_ in obs["steps"] if st_[0]) >= 1 and ctx.hist.get("cum:shared_options", 0) < ctx.budget(12, 400):
+            a_ = {"seq": seq, "zetas": zetas, "seed": seed, "shared_options": True}
+            ctx.count("cum:shared_options")
+            ok, obs, req, text = oracle_first_crossing(a_)
+            if not ok:
+                ctx.oracle_fail("cumulative-hopper-shared-options", "first_crossing", a_, obs, req, text)
